@@ -240,10 +240,19 @@ public:
         if (!isa<IntegerLiteral>(E) && !E->isValueDependent() &&
             !E->isTypeDependent() && E->getType()->isIntegralOrEnumerationType() &&
             E->isPRValue()) {
-          if (auto V = E->getIntegerConstantExpr(Ctx)) {
-            llvm::SmallString<32> Str;
-            V->toString(Str, 10);
-            J.attribute("iv", Str.str());
+          if (E->getType()->isIntegralOrUnscopedEnumerationType()) {
+            if (auto V = E->getIntegerConstantExpr(Ctx)) {
+              llvm::SmallString<32> Str;
+              V->toString(Str, 10);
+              J.attribute("iv", Str.str());
+            }
+          } else {
+            Expr::EvalResult ER;
+            if (E->EvaluateAsRValue(ER, Ctx) && ER.Val.isInt()) {
+              llvm::SmallString<32> Str;
+              ER.Val.getInt().toString(Str, 10);
+              J.attribute("iv", Str.str());
+            }
           }
         }
       }
@@ -771,6 +780,16 @@ public:
             E.J.attribute("staticlocal", VD->isStaticLocal());
             E.J.attribute("staticmember", VD->isStaticDataMember());
             E.J.attribute("tls", VD->getTLSKind() != VarDecl::TLS_None);
+            E.J.attribute("id", E.declId(VD));
+            {
+              const Expr *Init = VD->getAnyInitializer();
+              if (Init && !Init->isValueDependent() && E.inRoot(VD->getLocation())) {
+                E.NextStmt = 0;
+                E.J.attributeBegin("init");
+                E.emitStmt(Init);
+                E.J.attributeEnd();
+              }
+            }
             if (const DeclContext *DC = VD->getParentFunctionOrMethod())
               if (const auto *PF = dyn_cast<FunctionDecl>(DC))
                 E.J.attribute("infunc", E.qname(PF));
